@@ -333,6 +333,20 @@ def client_checks(ctx):
                 ctx.fail("call rejected although extraArgumentErrors is off", inp, str(e), "accepted")
             except Exception:
                 pass
+        # a clone that switches the checking off for itself does not switch it off for the client it was made from
+        # (what the clone itself then does is known finding D49 of C14)
+        if rng.random() < 0.3:
+            c_orig = wsdlkit.client(w, nosend=True)
+            c_orig.clone().set_options(extraArgumentErrors=False)
+            inp = {"schema": schema, "bad_call": "unknown keyword, after clone().set_options(extraArgumentErrors=False)"}
+            ctx.case(common.digest(inp), True)
+            try:
+                c_orig.service.f(zzz_unknown=1)
+                ctx.fail("client accepted or mis-reported a call the rule rejects", inp, "accepted", "TypeError")
+            except TypeError:
+                pass
+            except Exception as e:
+                ctx.fail("a call the rule rejects fails with another error (original after clone)", inp, repr(e), "TypeError")
         # the option is read at every call: a client switched after it was built (and used) behaves like one built so
         c_tog = wsdlkit.client(w, nosend=True)
         toggled = 0
